@@ -14,6 +14,8 @@ package operapi
 import (
 	"fmt"
 	"strings"
+
+	"github.com/nuetzliches/hookaido/verif/l0"
 )
 
 // Surfaces: how an operator call reaches the store.
@@ -23,15 +25,35 @@ const (
 	HTTPScoped   = "admin-http-scoped"   // Admin API, /applications/{app}/endpoints/{ep}/messages/... (managed routes)
 	MCPGlobal    = "mcp-proxy-global"    // MCP tools in admin-proxy mode, route selector, configuration without managed routes
 	MCPScoped    = "mcp-proxy-scoped"    // MCP tools in admin-proxy mode, application+endpoint_name selector (managed routes)
+	// MCP tools in direct mode: the server is started with --db naming the SAME SQLite file the harness store object has
+	// open and a configuration whose queue backend is sqlite (no admin proxy); every tool call opens its own SQLiteStore
+	// on that file.  SQLite only.  The configuration has no managed routes in every third schedule, /r1 (and /r2) managed
+	// otherwise (route selector / application+endpoint_name selector).
+	MCPDirect = "mcp-direct"
 )
 
-var Surfaces = []string{HTTPGlobal, HTTPSelector, HTTPScoped, MCPGlobal, MCPScoped}
+var Surfaces = []string{HTTPGlobal, HTTPSelector, HTTPScoped, MCPGlobal, MCPScoped, MCPDirect}
+
+// BackendOK: which backends a surface can run on.
+func BackendOK(surface, backend string) bool { return surface != MCPDirect || backend == "sqlite" }
+
+// SurfaceCfg adapts the store configuration of a schedule to a surface.  In direct mode every tool call runs on a
+// fresh SQLiteStore object WITHOUT any retention setting (Server.openSQLiteStore passes none) and with zeroed throttle
+// state, while listings on the harness object would run the configured prune first: the two objects agree exactly when
+// there is no prune step, so this surface runs retention-free (prune interval 0; delivered retention stays, it only
+// decides whether an ack keeps the row).  Depth limits and the drop policy stay (they act on the harness object).
+func SurfaceCfg(surface string, cfg l0.Cfg) l0.Cfg {
+	if surface == MCPDirect {
+		cfg.PruneInt, cfg.RetMaxAge, cfg.DlqMaxAge, cfg.DlqMaxDepth = 0, 0, 0, 0
+	}
+	return cfg
+}
 
 func IsMCP(surface string) bool { return strings.HasPrefix(surface, "mcp-") }
 
 // managedSurface: the configuration of the instance has managed routes.
 func managedSurface(surface string) bool {
-	return surface == HTTPSelector || surface == HTTPScoped || surface == MCPScoped
+	return surface == HTTPSelector || surface == HTTPScoped || surface == MCPScoped || surface == MCPDirect
 }
 
 func ValidSurface(s string) bool {
@@ -67,7 +89,7 @@ type Label struct{ App, Ep string }
 // for the managed ones (so that a route-less global filter and a filter on an
 // unmanaged route both occur next to managed ones).
 func ManagedRoutes(surface string, variant int) map[string]Label {
-	if !managedSurface(surface) {
+	if !managedSurface(surface) || (surface == MCPDirect && variant%3 == 0) {
 		return map[string]Label{}
 	}
 	m := map[string]Label{"/r1": {"billing", "r1.events"}}
@@ -75,6 +97,12 @@ func ManagedRoutes(surface string, variant int) map[string]Label {
 		m["/r2"] = Label{"erp-2", "r2_events"}
 	}
 	return m
+}
+
+// ActorDenied: in every fifth schedule of a configuration with managed routes the actor policy of scoped managed
+// operations (defaults.publish_policy actor_allow / actor_prefix) does not admit the harness's actor.
+func ActorDenied(surface string, variant int) bool {
+	return len(ManagedRoutes(surface, variant)) > 0 && variant%5 == 4
 }
 
 const (
@@ -85,8 +113,14 @@ const (
 // ConfigText renders the Hookaidofile of the instance.  adminListen is
 // "127.0.0.3:0" for the instance itself and the bound address in the copy the
 // MCP server reads (it finds the Admin API through the configuration file).
-func ConfigText(adminListen string, managed map[string]Label) string {
+// backend "memory" makes the MCP queue tools forward to the Admin API, "sqlite"
+// makes them open the database file themselves.
+func ConfigText(adminListen string, managed map[string]Label, backend string, actorDenied bool) string {
 	var b strings.Builder
+	if actorDenied {
+		// scoped managed operations are restricted to actors the harness is not
+		b.WriteString("defaults {\n  publish_policy {\n    actor_allow \"release-bot\"\n    actor_prefix \"deploy-\"\n  }\n}\n")
+	}
 	b.WriteString("ingress {\n  listen 127.0.0.1:0\n}\n")
 	fmt.Fprintf(&b, "admin_api {\n  listen %q\n  auth token %q\n}\n", adminListen, "raw:"+AdminTok)
 	for _, rt := range Routes {
@@ -94,7 +128,7 @@ func ConfigText(adminListen string, managed map[string]Label) string {
 		if l, ok := managed[rt]; ok {
 			fmt.Fprintf(&b, "  application %q\n  endpoint_name %q\n", l.App, l.Ep)
 		}
-		b.WriteString("  queue { backend memory }\n")
+		fmt.Fprintf(&b, "  queue { backend %s }\n", backend)
 		for _, t := range Targets {
 			fmt.Fprintf(&b, "  deliver %q {\n    timeout 5s\n  }\n", TargetURL(t))
 		}
